@@ -21,7 +21,22 @@ def main() -> int:
         mod = importlib.import_module("props." + rp["property"].lower())
         return mod.replay(rp)
     mod = importlib.import_module("props." + a.pid.lower())
-    return mod.main(a.tier, seed)
+    try:
+        return mod.main(a.tier, seed)
+    except Exception:
+        # the harness itself failed (e.g. the implementation raised where the model says it cannot):
+        # the property is no longer shown to hold
+        import traceback
+        from pathlib import Path
+        tb = traceback.format_exc()
+        d = Path("/verif/replays")
+        d.mkdir(exist_ok=True)
+        path = d / f"{a.pid}_{a.tier}_harness_crash.json"
+        path.write_text(json.dumps(dict(property=a.pid, broken="harness crashed while driving the implementation",
+                                        traceback=tb), indent=1))
+        sys.stderr.write(tb)
+        print(f"VIOLATION property={a.pid} replay={path} no-failing-input-found")
+        return 1
 
 
 if __name__ == "__main__":
